@@ -18,6 +18,12 @@ let () =
       let keys = rd_list rd_z () in let tg = rd_list rd_bool () in
       let raw = rd_list (rd_list rd_z) () in
       pr_result (pr_list pr_q) (bw_brew_scores dc c k thr keys tg raw));
+  (* brew(ensemble=True): fitted = (Model.fold, decision values on every row) in delivery order *)
+  reg "c02.brew_scores_ens" (fun () ->
+      let c = rd_nat () in let k = rd_nat () in
+      let keys = rd_list rd_z () in
+      let fitted = rd_list (rd_pair rd_nat (rd_list rd_z)) () in
+      pr_result (pr_list pr_q) (bw_brew_scores_ens c k keys fitted));
   reg "c02.predict" (fun () ->
       let dc = rd_bool () in let c = rd_nat () in let k = rd_nat () in let thr = rd_q () in
       let fo = rd_list rd_nat () in let tg = rd_list rd_bool () in
